@@ -135,5 +135,5 @@ pub fn dump_enc(e: &XEnc) -> String {
     let lenok = b.len() == e.length();
     let mut r = Rd::new(&b);
     r.take(16); let n = r.leb(); r.take(n * PT); let h = r.leb(); let m = r.leb();
-    format!("ENC l={} t={} h={} n={}", lenok as u8, n, h, m)
+    format!("ENC l={} t={} h={} n={} tag={}", lenok as u8, n, h, m, t8("g", &b[..16]))
 }
